@@ -1,7 +1,9 @@
 SPECIFICATION Spec
 CONSTANTS
   G = 3
-  B = 2
+  B = @B@
   DoublePut = @DP@
-INVARIANTS Exclusive
+  Regrow = @REGROW@
+  MaxClass = @MAXCLASS@
+INVARIANTS @INVS@
 CHECK_DEADLOCK FALSE
